@@ -393,8 +393,10 @@ def main(ck):
     tasks.append((6, 10, [('0.5', '2')], 'DS_r <- DS_1;')); meta.append(('witness6_10', None, None, None))
     tasks.append((3, None, [('0.5', '2')], 'DS_r <- DS_1;')); meta.append(('reject3', None, None, None))
     ctx = mp.get_context('spawn')
+    os.environ['VERIF_SHARED_LEAN'] = '1'      # spawned workers re-import this module (and vlib): they must not re-sync the private Lean copy
     with ctx.Pool(min(8, max(2, len(tasks) // 3)), initializer=_winit, initargs=(vlib.REPO,)) as pool:
         results = pool.map(_wtask, tasks, chunksize=1)
+    os.environ.pop('VERIF_SHARED_LEAN', None)
     lap('run()')
     aans = ans[load_off + len(load_lines) + len(witness_lines):] if ans else None
     rstats = {'runs': len(tasks), 'ok': 0, 'errors': {}, 'cells_compared': 0, 'overflow_rejected': 0}
